@@ -533,6 +533,9 @@ func propC12(c *Ctx) {
 		c.OK("R12.1", "Integration.Filter/no-push-down", flt.Pos(), "no address restriction is derived from filters")
 	}
 
+	c.Rule("R12.7", "every type a cell value can have is judged by Filter.Accept (or converted into one that is): a filter on a field of a type no arm knows would be ignored", 4)
+	checkFilterTypesHandled(c, "R12.7")
+
 	// ---- R12.2 ----------------------------------------------------------
 	c.Rule("R12.2", "the topic restriction is exactly [[hex(signature hash)]]", 1)
 	okTopics := false
@@ -1213,4 +1216,125 @@ func consultsBothFilters(w *World, cal *ssa.Function) bool {
 	}
 	visit(cal, 0)
 	return viaIn && viaBD
+}
+
+// checkFilterTypesHandled (R12.7): a filter whose value is of a type that Filter.Accept's type switch does not
+// know contributes no verdict at all – the fold then accepts as if the filter were not declared.  Every
+// dynamic type a cell value can have (what logWithCtx.get and dbtype hand out) is therefore either judged by
+// an arm of Accept (an arm that adds a verdict) or converted by Accept into a type that is.
+func checkFilterTypesHandled(c *Ctx, rule string) {
+	w := c.W
+	accept := w.Fn("dig", "Filter.Accept")
+	// offered: concrete types wrapped into the interface that get / dbtype return
+	offered := map[string]types.Type{}
+	where := map[string][]string{}
+	for _, src := range []*ssa.Function{w.Fn("dig", "(*logWithCtx).get"), w.Fn("dig", "dbtype")} {
+		reg := NewRegion(src)
+		for _, ret := range returnsOf(src) {
+			for _, leaf := range reg.Leaves(returnValues(ret)[0]) {
+				mi, ok := leaf.(*ssa.MakeInterface)
+				if !ok {
+					continue
+				}
+				k := types.TypeString(mi.X.Type(), nil)
+				offered[k] = mi.X.Type()
+				where[k] = append(where[k], fnName(src))
+			}
+		}
+	}
+	// judged / normalised types of Accept
+	var adds []ssa.Instruction
+	for _, ci := range callsIn(accept) {
+		if cal := staticCallee(ci); cal != nil && cal.Name() == "add" && cal.Signature.Recv() != nil && repoNamedIs(cal.Signature.Recv().Type(), "dig", "filterResults") {
+			adds = append(adds, ci)
+		}
+	}
+	judged := map[string]bool{}
+	type norm struct{ to []string }
+	normalised := map[string][]string{}
+	allInstrs(accept, func(in ssa.Instruction) {
+		ta, ok := in.(*ssa.TypeAssert)
+		if !ok || !ta.CommaOk {
+			return
+		}
+		k := types.TypeString(ta.AssertedType, nil)
+		var okV ssa.Value
+		for _, ref := range *ta.Referrers() {
+			if e, isE := ref.(*ssa.Extract); isE && e.Index == 1 {
+				okV = e
+			}
+		}
+		if okV == nil {
+			return
+		}
+		t, _ := boolEdges(okV)
+		for _, a := range adds {
+			if guardedByEdges(accept, a, t) {
+				judged[k] = true
+			}
+		}
+		// d = U(v) in the arm
+		allInstrs(accept, func(x ssa.Instruction) {
+			mi, isMI := x.(*ssa.MakeInterface)
+			if !isMI || !guardedByEdges(accept, mi, t) {
+				return
+			}
+			if _, isIface := mi.X.Type().Underlying().(*types.Interface); isIface {
+				return
+			}
+			for _, ref := range *mi.Referrers() {
+				if _, isPhi := ref.(*ssa.Phi); isPhi {
+					normalised[k] = append(normalised[k], types.TypeString(mi.X.Type(), nil))
+				}
+			}
+		})
+	})
+	if len(judged) == 0 {
+		c.Violation(rule, "Filter.Accept/type-switch", accept.Pos(), "no arm of Accept adds a verdict under a type test of the value")
+		return
+	}
+	for _, k := range sortedKeys(offered) {
+		ok := judged[k]
+		via := ""
+		for _, u := range normalised[k] {
+			if judged[u] {
+				ok, via = true, " (converted to "+u+")"
+			}
+		}
+		srcs := where[k]
+		if !ok && !supportedFilterKind(offered[k]) {
+			c.OK(rule, "Filter.Accept/judges-"+k, accept.Pos(), fmt.Sprintf("%s (handed out by %v) is not one of the value kinds filters are defined for (byte strings, strings, unsigned integers of up to 64 and of 256 bits): a filter declared on it is not evaluated; not decided", k, dedupStrings(srcs)))
+			continue
+		}
+		c.Check(rule, "Filter.Accept/judges-"+k, accept.Pos(), ok,
+			fmt.Sprintf("a cell value of type %s (handed out by %v) is judged by an arm of Accept%s; a type no arm knows makes the declared filter contribute nothing", k, dedupStrings(srcs), via))
+	}
+}
+
+func dedupStrings(in []string) []string {
+	seen := map[string]bool{}
+	var out []string
+	for _, s := range in {
+		if !seen[s] {
+			seen[s] = true
+			out = append(out, s)
+		}
+	}
+	return out
+}
+
+// supportedFilterKind: byte strings, strings, unsigned integers (of up to 64 bits, or *uint256.Int)
+func supportedFilterKind(t types.Type) bool {
+	switch u := t.Underlying().(type) {
+	case *types.Basic:
+		return u.Info()&types.IsString != 0 || u.Info()&types.IsUnsigned != 0
+	case *types.Slice:
+		b, ok := u.Elem().Underlying().(*types.Basic)
+		return ok && b.Kind() == types.Uint8
+	case *types.Pointer:
+		if n := namedOf(u.Elem()); n != nil && n.Obj().Pkg() != nil && n.Obj().Name() == "Int" && n.Obj().Pkg().Name() == "uint256" {
+			return true
+		}
+	}
+	return false
 }
